@@ -567,6 +567,32 @@ fn messages(thorough: bool) -> Vec<M> {
     v
 }
 
+/// every variable-length field of the hello messages at its minimum or maximum, in every combination
+fn corner_values() -> Vec<M> {
+    let mut corners: Vec<M> = Vec::new();
+    for sid in [None, Some(vec![0x90u8; 32])] {
+        for nc in [0usize, 1, 32767] {
+            for ncomp in [0usize, 1, 255] {
+                for ext in [None, Some(0usize), Some(65535)] {
+                    corners.push(M::ClientHello {
+                        version: 0x0303,
+                        random: rnd(7),
+                        sid: sid.clone(),
+                        ciphers: (0..nc).map(|j| (j as u16).wrapping_mul(3)).collect(),
+                        comps: (0..ncomp).map(|j| j as u8).collect(),
+                        ext: ext.map(|n| (0..n).map(|j| (j % 251) as u8).collect()),
+                    });
+                }
+            }
+        }
+        for ext in [None, Some(0usize), Some(65535)] {
+            corners.push(M::ServerHello { version: 0x0303, random: rnd(8), sid: sid.clone(), cipher: 0xc02f, comp: 0, ext: ext.map(|n| (0..n).map(|j| (j % 251) as u8).collect()) });
+            corners.push(M::ServerHello13 { random: rnd(9), cipher: 0x1301, ext: ext.map(|n| (0..n).map(|j| (j % 251) as u8).collect()) });
+        }
+    }
+    corners
+}
+
 fn report(sink: &mut Sink, group: &'static str, key: String, msgs: Vec<String>, replay: Value) {
     sink.count(group, if msgs.is_empty() { "ok" } else { "VIOLATION" });
     for m in msgs {
@@ -589,6 +615,7 @@ fn main() {
                     let ms: Vec<M> = idx.iter().map(|&i| msgs[i].clone()).collect();
                     check_record(&ms, c["version"].as_u64().unwrap() as u16)
                 }
+                Some("corner") => check_message(&corner_values()[c["index"].as_u64().unwrap() as usize]),
                 Some("size") => {
                     let (k, n) = (c["field"].as_u64().unwrap() as u8, c["size"].as_u64().unwrap() as usize);
                     let bytes = |seed: u8| -> Vec<u8> { (0..n).map(|j| seed.wrapping_add((j % 251) as u8)).collect() };
@@ -777,6 +804,20 @@ fn main() {
         });
         sink.merge(s3c);
     }
+    // (3d) every variable-length field at its minimum or its maximum at the same time (the 2^k corners of the size space):
+    //      a limit on the sum of the fields shows only there
+    {
+        let corners = corner_values();
+        let s3d = par_run(run.threads, corners.len(), |i, sink| {
+            let r = check_message(&corners[i]);
+            sink.case(fnv(7, &(i as u32).to_be_bytes()), true);
+            sink.bump("corner values", 1);
+            if !r.is_empty() {
+                report(sink, "message", format!("corner #{} {:.80?}", i, corners[i]), r, json!({"kind":"corner","index":i}));
+            }
+        });
+        sink.merge(s3d);
+    }
     // (4) extensions
     let el = ext_lists(thorough);
     let nel = el.len();
@@ -797,7 +838,7 @@ fn main() {
     cov.insert("parsed_records".into(), json!(nparsed));
     cov.insert("extension_lists".into(), json!(nel));
     cov.insert("rule".into(), json!(
-        "catalogue of serializable values (ClientHello over 7 versions x 4 session ids x 5 cipher lists incl. 32767 entries x 4 compression lists incl. 255 x 4 extension blocks incl. 65535 bytes; ServerHello 0300..0303 (SSLv3 without extensions); draft-18 ServerHello; ClientKeyExchange Unknown/Dh/Ecdh and Finished with bodies 0/1/2/255/256(/65535/70000); HelloRequest; ChangeCipherSpec), every one of the 14 unsupported message kinds and 25 unsupported extension variants; records of 1..3 small messages, all 65536 record versions; every size of every variable-length field (cipher count 0..32767, compression count, session id, extension block, Finished / ClientKeyExchange body 0..65535: dense to 1100, powers of two +-1, multiples of 512 and 509 in the quick tier, every value in the thorough tier); every parsed record of the C03 catalogue; every hello of the field cross product (8 versions x 7 randoms incl. the HelloRetryRequest value x 2 session ids x 60 cipher kinds x 5 (thorough: 256) compression ids x 4 extension blocks) that parses; SNI / max_fragment_length (all 256) / supported_groups (full sweep) singly and in lists. Laws: serialize succeeds, into a slice of every capacity 0..=len+1 and into writers taking 1 / 3 bytes per call the outcome is an error or exactly those bytes, strict reference walker accepts the bytes (all length fields), the parser consumes them entirely and returns the value (two permitted normalisations), serialize(parse(bytes)) == bytes, unsupported -> NotYetImplemented. Non-trivial: every value"));
+        "catalogue of serializable values (ClientHello over 7 versions x 4 session ids x 5 cipher lists incl. 32767 entries x 4 compression lists incl. 255 x 4 extension blocks incl. 65535 bytes; ServerHello 0300..0303 (SSLv3 without extensions); draft-18 ServerHello; ClientKeyExchange Unknown/Dh/Ecdh and Finished with bodies 0/1/2/255/256(/65535/70000); HelloRequest; ChangeCipherSpec), every one of the 14 unsupported message kinds and 25 unsupported extension variants; records of 1..3 small messages, all 65536 record versions; every size of every variable-length field (cipher count 0..32767, compression count, session id, extension block, Finished / ClientKeyExchange body 0..65535: dense to 1100, powers of two +-1, multiples of 512 and 509 in the quick tier, every value in the thorough tier); the corners of the size space (session id 0 / 32 x 0 / 1 / 32767 ciphers x 0 / 1 / 255 compressions x no / empty / 65535-byte extension block); every parsed record of the C03 catalogue; every hello of the field cross product (8 versions x 7 randoms incl. the HelloRetryRequest value x 2 session ids x 60 cipher kinds x 5 (thorough: 256) compression ids x 4 extension blocks) that parses; SNI / max_fragment_length (all 256) / supported_groups (full sweep) singly and in lists. Laws: serialize succeeds, into a slice of every capacity 0..=len+1 and into writers taking 1 / 3 bytes per call the outcome is an error or exactly those bytes, strict reference walker accepts the bytes (all length fields), the parser consumes them entirely and returns the value (two permitted normalisations), serialize(parse(bytes)) == bytes, unsupported -> NotYetImplemented. Non-trivial: every value"));
     // the same check against the crate built with all cargo features (std, serialize, unstable)
     let mut sink = sink;
     run.all_features_variant(&mut sink);
